@@ -132,6 +132,7 @@ func (e *mgrEnv) call(in nameCase, helloKind string, first bool) callObs {
 
 type hostileSeed struct {
 	Kind string
+	Path string // where the pair is validated: cache | renewal-cache | ca | renewal-ca ("" → from the scenario name)
 	DERs [][]byte // leaf encodings that must never be served in this scenario
 }
 
@@ -277,8 +278,22 @@ func judgeCall(m *mon.M, e *mgrEnv, o callObs, hostile *hostileSeed, scen string
 		m.Violation("served-cert-for-other-name", wit(lw))
 	}
 	signer, ok := o.cert.PrivateKey.(crypto.Signer)
+	// invariant on every certificate any stream gets back: the leaf's public key is the private key's
 	if !ok || !pubEqual(signer.Public(), leaf.PublicKey) {
-		m.Violation("served-cert-key-mismatch", wit(lw))
+		path, class := strings.SplitN(scen, "/", 2)[0], "unplanted"
+		if hostile != nil {
+			class = hostile.Kind
+			if hostile.Path != "" {
+				path = hostile.Path
+			}
+		}
+		if ok {
+			lw["private_key_public"] = fmt.Sprintf("%+v", signer.Public())
+			lw["leaf_public"] = fmt.Sprintf("%+v", leaf.PublicKey)
+		}
+		m.Violation("served-cert-key-mismatch:"+path+":"+class, wit(lw))
+	} else {
+		m.Count("key_match_invariant_checked", 1)
 	}
 	if why := canUse(o.hello, leaf); why != "" {
 		lw["why"] = why
@@ -433,7 +448,9 @@ func TestC51(t *testing.T) {
 		// fixed manager clock: certificates issued by the fake CA during the scenario (NotBefore = wall
 		// clock at issuance, 90 days) are valid at it, and their renewal timers are weeks away
 		now0 := time.Now().Truncate(time.Second).Add(time.Hour + time.Duration(r.Int64N(int64(40*24*time.Hour)))).Truncate(time.Second)
-		switch i % 6 {
+		switch i % 7 {
+		case 6: // related-key mismatches at every validation point
+			relatedKeyScenario(t, m, px, r, i/7, tag, base, now0)
 		case 0: // names
 			hn := hostileNames(base)
 			var seq []nameCase
@@ -479,7 +496,7 @@ func TestC51(t *testing.T) {
 				}
 			}
 		case 1: // planted cache content
-			kind := seedKinds[int(i/6)%len(seedKinds)]
+			kind := seedKinds[int(i/7)%len(seedKinds)]
 			rsaSlot := r.IntN(4) == 0
 			mc := newMemCache()
 			delta, acceptable, hs := seedCache(r, mc, base, rsaSlot, kind, now0)
@@ -527,7 +544,7 @@ func TestC51(t *testing.T) {
 			caUp := r.IntN(12) == 0
 			e := newManager(t, px, tag, log, mc, func(context.Context, string) error { return nil }, caUp, now0)
 			for k := range 2 + r.IntN(3) {
-				hk := helloKinds[(int(i/6)+k)%len(helloKinds)]
+				hk := helloKinds[(int(i/7)+k)%len(helloKinds)]
 				o := e.call(benignName(r, base), hk, k == 0)
 				judgeCall(m, e, o, nil, "keytype")
 				if strings.HasPrefix(hk, "rsa-only") {
@@ -673,11 +690,16 @@ func TestC51(t *testing.T) {
 
 	m.Gate("certs_fully_checked", 300, "returned certificates were judged")
 	m.Gate("policy_order_checked", 300, "policy-before-cache/CA order was evaluated")
-	m.Gate("hostile_cache_content_cases", 100, "hostile cache content was planted (every 6th scenario)")
+	m.Gate("hostile_cache_content_cases", 100, "hostile cache content was planted (every 7th scenario)")
 	m.Gate("planted_cache_entry_was_read", 100, "the manager actually read the planted cache entry")
-	m.Gate("rsa_only_hellos_served", 50, "RSA-only clients were served a certificate (every 6th scenario)")
-	m.Gate("single_flight_groups_with_an_order", 50, "concurrent callers for one new name reached the CA (every 6th scenario)")
-	m.Gate("refusing_policy_with_valid_cached_cert", 50, "a refusing policy met a valid cached certificate (every 6th scenario)")
+	m.Gate("rsa_only_hellos_served", 50, "RSA-only clients were served a certificate (every 7th scenario)")
+	m.Gate("single_flight_groups_with_an_order", 50, "concurrent callers for one new name reached the CA (every 7th scenario)")
+	m.Gate("refusing_policy_with_valid_cached_cert", 50, "a refusing policy met a valid cached certificate (every 7th scenario)")
+	m.Gate("related_key_scenarios", 100, "related-key mismatch pairs were planted (every 7th scenario)")
+	m.Gate("related_key_cache", 40, "related-key pairs in the cache on first load")
+	m.Gate("related_key_renewal_cache_rereads", 20, "the renewal loop re-read a cache entry that had been swapped for a related-key pair / removed")
+	m.Gate("related_key_ca_chains_substituted", 10, "the CA path returned a chain for a related key")
+	m.Gate("key_match_invariant_checked", 300, "leaf public key == private key was checked on returned certificates")
 	m.Gate("hostile_names_tried", 100, "hostile server names were tried")
 	m.Gate("normalised_name_compared_with_ref", 100, "IDN/mixed-case normalisation was compared with ref/punycode")
 	m.Gate("renewal_grid_points", 363, "the whole renewal grid was evaluated")
